@@ -121,7 +121,7 @@ func c16Exhaustive(ctx *core.Ctx) {
 	badf := &c16Node{Lines: []c16Line{c16Assign("A", c16Lit("y")), {Bad: true}}}
 	states := []st{{file, true, ""}, {file, false, ""}, {nil, true, ""}, {nil, false, ""}, {&c16Node{Dir: true}, true, ""},
 		{file, true, "raw"}, {nil, false, "raw"}, {nil, true, "raw"}, {&c16Node{Dir: true}, false, "raw"}, {badf, false, ""},
-		{&c16Node{NotDir: true}, false, ""}, {&c16Node{NotDir: true}, true, "raw"}}
+		{&c16Node{NotDir: true}, false, ""}, {&c16Node{NotDir: true}, true, "raw"}, {file, true, "c16kv"}, {&c16Node{Dir: true}, false, "c16kv"}}
 	for x, s1 := range states {
 		for y, s2 := range states {
 			for z, s3 := range states {
@@ -297,7 +297,9 @@ func c16RandArgs(r *rand.Rand, malformed, forLoad bool) c16Args {
 			used[p] = true
 			f := c16EnvFile{Path: p, Required: r.Intn(3) != 0}
 			if malformed && r.Intn(12) == 0 {
-				f.Format = "raw"
+				f.Format = "raw" // never registered
+			} else if r.Intn(14) == 0 {
+				f.Format = "c16kv" // registered by this harness (c16kvParser / kvParser)
 			}
 			s.EnvFiles = append(s.EnvFiles, f)
 		}
@@ -382,7 +384,7 @@ func c16EnvState(k string, st int) [][2]*string {
 }
 
 // how a file mentions a key: 0 not at all, 1 literal, 2 bare, 3 literal followed by a reference to `ref`,
-// 4–6 operators of the interpolation grammar on `ref` (`:-`, `+`, `-`)
+// 4–6 operators of the interpolation grammar on `ref` (`:-`, `+`, `-`), 7–8 the error operators (`:?`, `?`)
 func c16FileLine(tag, k string, kind int, ref string) []c16Line {
 	switch kind {
 	case 1:
@@ -397,6 +399,10 @@ func c16FileLine(tag, k string, kind int, ref string) []c16Line {
 		return []c16Line{c16Assign(k, c16OpSeg(ref, "+", c16Lit("alt."+tag+"/"), c16Ref(k)), c16Seg{Var: sp(ref)})}
 	case 6: // default when unset only; escaped dollar
 		return []c16Line{c16Assign(k, c16Seg{Esc: new(bool)}, c16OpSeg(ref, "-", c16Ref(k), c16Lit(".d")))}
+	case 7: // required, non-empty: the file fails unless `ref` has a non-empty value in this line's lookup chain
+		return []c16Line{c16Assign(k, c16Lit(tag+"."+k+"!"), c16OpSeg(ref, ":?", c16Lit("msg."+tag)))}
+	case 8: // required, may be empty
+		return []c16Line{c16Assign(k, c16OpSeg(ref, "?", c16Lit("msg."+tag)), c16Lit("/"+tag))}
 	}
 	return nil
 }
@@ -533,7 +539,7 @@ func c16OracleUnderFile(ctx *core.Ctx) {
 // empty or set in the project environment, an earlier file or an earlier line
 func c16OracleOperators(ctx *core.Ctx) {
 	n := 0
-	for kind := 4; kind <= 6; kind++ {
+	for kind := 4; kind <= 8; kind++ {
 		for rstate := 0; rstate < 7; rstate++ {
 			for _, st := range []int{0, 2} {
 				n++
@@ -590,6 +596,9 @@ func c16OracleRandom(ctx *core.Ctx) {
 			for j, m := 0, r.Intn(6); j < m; j++ {
 				k := keys[r.Intn(nk)]
 				kind := 1 + r.Intn(6)
+				if r.Intn(10) == 0 {
+					kind = 7 + r.Intn(2) // which file fails is part of the specification (envFailureFrom)
+				}
 				l := c16FileLine(fmt.Sprintf("%s#%d", tag, j), k, kind, keys[r.Intn(nk)])
 				ls = append(ls, l...)
 			}
